@@ -44,6 +44,7 @@ def check(ctx):
     ctx.attempt(_raises)
     ctx.attempt(_at_least_one_tract)
     ctx.attempt(_kwargs)
+    ctx.attempt(_str_lists)
     n = common.discarded_results(ctx, _parser_funcs(ctx))
     if n == 0:
         ctx.ok('DISCARD', 'no validated / converted value is computed and dropped (bare-statement calls to pure functions)')
@@ -363,6 +364,107 @@ def _at_least_one_tract(ctx):
     su = ctx.repo.func('SecUnpacker.unpack_sections')
     t = ' '.join(norm(s) for s in walk_local(su.node) if isinstance(s, ast.stmt))
     ctx.shape('working_sec_list.append(new_sec)' in t, 'SINK', 'SecUnpacker yields at least the matched section')
+
+
+def _kind(fi, expr, depth=0):
+    """'str' / 'int' / 'none' / 'unknown' for the value of expr."""
+    if isinstance(expr, ast.JoinedStr):
+        return 'str'
+    if isinstance(expr, ast.Constant):
+        v = expr.value
+        return 'none' if v is None else 'str' if isinstance(v, str) else 'int' if isinstance(v, (int, float)) and not isinstance(v, bool) else 'unknown'
+    if isinstance(expr, ast.Call):
+        nm = dotted(expr.func) or ''
+        last = expr.func.attr if isinstance(expr.func, ast.Attribute) else nm.split('.')[-1]
+        if last in ('rjust', 'ljust', 'zfill', 'strip', 'lstrip', 'rstrip', 'lower', 'upper', 'replace', 'format', 'join', 'group') or nm == 'str':
+            return 'str'
+        if nm in ('int', 'len', 'abs', 'sum', 'max', 'min') and nm != 'max':
+            return 'int'
+        if nm == 'remove_fractions' or last in ('twprge_natural_to_short', 'unpack_twprge', 'cleanup_desc'):
+            return 'str'
+        return 'unknown'
+    if isinstance(expr, ast.BinOp) and isinstance(expr.op, (ast.Add, ast.Sub, ast.Mult, ast.FloorDiv)):
+        a, b = _kind(fi, expr.left, depth + 1), _kind(fi, expr.right, depth + 1)
+        if 'int' in (a, b) and 'str' not in (a, b):
+            return 'int'
+        if a == b == 'str':
+            return 'str'
+        return 'unknown'
+    if isinstance(expr, ast.Name) and depth < 4:
+        cfg, rd = flow.analyse(fi.node)
+        try:
+            node = flow.stmt_node(cfg, expr)
+        except AnalysisError:
+            return 'unknown'
+        kinds = set()
+        for d in rd.reaching(node, expr.id):
+            val = rd.defs[d]
+            if isinstance(val, tuple) and val[0] == 'iter':
+                it = val[1]
+                if isinstance(it, ast.Call) and dotted(it.func) == 'range':
+                    kinds.add('int')
+                else:
+                    kinds.add('unknown')
+            elif isinstance(val, ast.AST):
+                kinds.add(_kind(fi, val, depth + 1))
+            else:
+                kinds.add('unknown')
+        if len(kinds) == 1:
+            return kinds.pop()
+        if 'int' in kinds and kinds <= {'int', 'unknown'}:
+            return 'unknown'
+        return 'unknown'
+    return 'unknown'
+
+
+STR_LISTS = (
+    ('SecUnpacker.unpack_sections', ('working_sec_list', 'self.sec_list'), "section numbers ('01'..'36')"),
+    ('LotUnpacker.unpack_lots', ('self.lot_list', '=working_lot_list'), "lots ('L1', ...)"),
+    ('TractParser.parse', ('self.lots', 'self.qqs', 'self.aliquots_whole'), 'lots / aliquots'),
+    ('PLSSParser.__init__', ('short_versions',), 'fixed Twp/Rges'),
+)
+
+
+def _str_lists(ctx):
+    """Lists whose elements are later joined with ','.join(...) (flag texts,
+    TRS construction) only ever receive str elements."""
+    for spec, names0, what in STR_LISTS:
+        fi = ctx.repo.func(spec)
+        n = 0
+        comp_only = tuple(x[1:] for x in names0 if x.startswith('='))
+        names = tuple(x for x in names0 if not x.startswith('='))
+        for c in walk_local(fi.node):
+            if isinstance(c, ast.Call) and isinstance(c.func, ast.Attribute) and c.func.attr == 'append' \
+                    and norm(c.func.value) in names and len(c.args) == 1:
+                n += 1
+                k = _kind(fi, c.args[0])
+                ctx.tri(k == 'str', k in ('int', 'none'), 'EXC', f"{fi.qualname}: {norm(c)[:50]} appends a str",
+                        f"{what}", f"`{norm(c)}` appends {'an int' if k == 'int' else 'None'} to a list of {what} that is later "
+                        f"joined with ','.join(): TypeError when a flag is built / wrong TRS text",
+                        key=f"EXC|{fi.qualname}|elemtype|{norm(c.func.value)}|{norm(c.args[0])[:30]}", where=common.loc(fi, c))
+        for a in walk_local(fi.node):
+            if isinstance(a, ast.Assign) and norm(a.targets[0]) in names + comp_only + tuple(n_.split('.')[-1] for n_ in names) \
+                    and isinstance(a.value, ast.ListComp):
+                n += 1
+                k = _kind(fi, a.value.elt)
+                ctx.tri(k == 'str', k in ('int', 'none'), 'EXC', f"{fi.qualname}: {norm(a)[:60]} builds str elements",
+                        what, f"`{norm(a)[:80]}` produces non-str elements", key=f"EXC|{fi.qualname}|elemtype|{norm(a.targets[0])}",
+                        where=common.loc(fi, a))
+        if n == 0:
+            ctx.undecided('EXC', f"{fi.qualname}: element types of {names}", 'no append / list-comprehension recognised')
+    # join sites themselves: a comprehension argument must produce str
+    n_join = 0
+    for fi in _parser_funcs(ctx):
+        for c in walk_local(fi.node):
+            if isinstance(c, ast.Call) and isinstance(c.func, ast.Attribute) and c.func.attr == 'join' \
+                    and isinstance(c.func.value, (ast.Constant, ast.Name)) and c.args \
+                    and isinstance(c.args[0], (ast.ListComp, ast.GeneratorExp)):
+                n_join += 1
+                k = _kind(fi, c.args[0].elt)
+                ctx.tri(k == 'str', k in ('int', 'none'), 'EXC', f"{fi.qualname}: {norm(c)[:50]} joins str elements",
+                        detail_bad=f"`{norm(c)[:70]}` joins non-str elements: TypeError", key=f"EXC|{fi.qualname}|join|{norm(c.args[0].elt)[:30]}",
+                        where=common.loc(fi, c))
+    ctx.notes['join_comprehension_sites'] = n_join
 
 
 def _kwargs(ctx):
